@@ -178,6 +178,19 @@ def run_unit(unit, repo, outdir, extra_args=(), timeout=600):
             c = _clause_of_line(meta, ln)
             if c is not None and (clause is None or (clause.get('auto') and not c.get('auto'))):
                 clause = c
+        outside = False
+        if f is None:
+            # the failed clause sits in template text (e.g. the `ensures` of a trait method declaration) but the
+            # diagnostic also points into an extracted function (`at the end of the function body`): that function
+            # fails the contract it has to meet
+            for (ln, _, _) in lines:
+                f2, vac2 = _fn_of_line(meta, ln)
+                if f2 is not None:
+                    f, vac, outside = f2, vac2, True
+                    break
+            if f is not None and vac:
+                vac_failed.add(f['name'])
+                continue
         if f is None:
             # failure in template text (lemma, spec) -- not code: undecided
             undecided_msgs.append('%s at generated line %d (outside extracted functions)' % (msg, prim[0][0]))
@@ -190,6 +203,10 @@ def run_unit(unit, repo, outdir, extra_args=(), timeout=600):
             name = '%s.termination' % f['name']
             props = f['props']
             text = msg
+        elif outside:
+            name = '%s.declared_contract' % f['name']
+            props = f['props']
+            text = msg
         else:
             name = '%s.body_safety' % f['name']
             props = f['props']
@@ -200,6 +217,9 @@ def run_unit(unit, repo, outdir, extra_args=(), timeout=600):
         res.failed.append(dict(obligation=name, fn=f['name'], props=props, message=msg, clause=text,
                                gen_line=prim[0][0], src='%s:%d-%d' % (f['file'], f['lines'][0], f['lines'][1]),
                                rendered=d.get('rendered', '')[:3000]))
+    # a contract declared in template text and repeated as a labelled clause of the function is reported once (labelled)
+    labelled = set(x['fn'] for x in res.failed if not x['obligation'].endswith(('.declared_contract', '.body_safety', '.termination')))
+    res.failed = [x for x in res.failed if not (x['obligation'].endswith('.declared_contract') and x['fn'] in labelled)]
     res.vacuity_failed_as_expected = len(vac_failed)
     if undecided_msgs:
         res.reason = 'verifier could not decide: %s' % ' | '.join(undecided_msgs[:3])
